@@ -19,12 +19,52 @@ NP = "namespace_peers"
 
 
 def tx_closure(f):
+    """(register_useful_peer, the body that runs inside its Store::modify transaction and writes the
+    peers table): the closure passed to modify, or a helper function that closure calls"""
     b = f.body(RUP)
     bi, t = one_call(b, r"store::fs::Store::modify")
-    cl = [d for d in t["f"]["tdefs"] if d and "{closure" in d]
-    if len(cl) != 1:
-        raise mir.AnchorMissing("register_useful_peer does not pass one closure to modify")
-    return b, f.body(cl[0])
+    roots = [d for d in (t["f"].get("tdefs") or []) if d and d in f.bodies]
+    if len(roots) != 1:
+        raise mir.AnchorMissing("register_useful_peer does not pass one closure or function to modify")
+    types = tables.table_types(f)
+    cands = []
+    for hb in f.local_callees(roots[0], depth=2, prefix="store::fs::"):
+        if any((tables.call_table(ct, types) or (None, None))[:2] == (NP, "insert") for _, ct in hb.calls()):
+            cands.append(hb)
+    if len(cands) != 1:
+        raise mir.AnchorMissing("expected one body writing the peers table inside register_useful_peer's transaction, found %s" % [c.path for c in cands])
+    return b, cands[0]
+
+
+def outer_names(f, outer, body, op):
+    """provenance of `op` (in the transaction body) expressed as parameters / locals of register_useful_peer"""
+    from .common import ip_trace, lift_origins
+    scope = [x for x in f.bodies.values() if x.path.startswith(RUP)]
+    out = set()
+    for b2, o in ip_trace(f, body, op, scope):
+        for lo in (lift_origins(f, b2, [o], outer) if b2 is not outer else [o]):
+            if lo.kind == "arg":
+                out.add("arg:%s" % lo.data[1])
+            elif lo.kind == "call" and _from_clock(outer, lo):
+                out.add("clock")
+            else:
+                out.add(origin_summary(lo))
+    return out
+
+
+def _from_clock(outer, o, depth=0):
+    """the call origin `o` computes its value from SystemTime::elapsed()"""
+    if o.kind != "call" or depth > 6:
+        return False
+    if o.data["f"].get("name") == "elapsed":
+        return True
+    for a in o.data["a"][:1]:
+        if a[0] == "const":
+            continue
+        for o2 in trace(outer, a, through_calls=False):
+            if _from_clock(outer, o2, depth + 1):
+                return True
+    return False
 
 
 def r1(ctx):
@@ -77,8 +117,8 @@ def r2(ctx):
             dom = any(b.edge_dominates(e[0], e[1], bi) for e in some_edges)
             ctx.check(dom, "C17.R2", RUP, "write-dominated-by-document-exists.%s" % ct[1], "peers-table %s is reachable only on the document-exists edge" % ct[1], t["sp"])
     # key of exists check is the namespace argument
-    k = {origin_summary(o) for o in trace(b, gt["a"][1])}
-    ctx.check(k == {"upvar:namespace"}, "C17.R2", RUP, "exists-check-on-this-namespace", "namespaces.get(%s)" % sorted(k), gt["sp"])
+    k = outer_names(f, outer, b, gt["a"][1])
+    ctx.check(k == {"arg:namespace"}, "C17.R2", RUP, "exists-check-on-this-namespace", "namespaces.get(%s)" % sorted(k), gt["sp"])
     if n < 5:
         raise mir.AnchorMissing("expected >=5 writes to the peers table, found %d" % n)
     ctx.floor("C17.R2", 6)
@@ -144,6 +184,19 @@ def _role(b, bi):
     return "bb-of-" + "-".join(sorted({n for n in ("oldest", "prev") if any(n in (b.local_name(a[1]["l"]) or "") for s in b.blocks[bi]["s"] for a in ([s["r"][1]] if s["k"] == "assign" and s["r"][0] == "use" and s["r"][1][0] in ("copy", "move") else []))})) or "x"
 
 
+def _receiver_chain_has(body, op, call, depth=0):
+    """`op` is produced by a chain of adaptor calls (receiver position) that includes `call`"""
+    if depth > 6:
+        return False
+    for o in trace(body, op, through_calls=False):
+        if o.kind == "call":
+            if o.data is call:
+                return True
+            if o.data["a"] and o.data["a"][0][0] != "const" and _receiver_chain_has(body, o.data["a"][0], call, depth + 1):
+                return True
+    return False
+
+
 def r4(ctx):
     f = ctx.facts
     g = f.body("store::fs::Store::get_sync_peers")
@@ -155,8 +208,14 @@ def r4(ctx):
     if gets:
         k = {origin_summary(o) for o in trace(g, gets[0]["a"][1])}
         ctx.check(k == {"arg:namespace"}, "C17.R4", g.path, "reads-this-namespace", "%s" % sorted(k), gets[0]["sp"])
-    pushes = [t for _, t in g.calls() if t["f"].get("name") == "push"]
-    ctx.check(len(pushes) == 1, "C17.R4", g.path, "pushes-every-row", "each row's peer is pushed once", g.sp)
+    # every row reaches the result: pushed in the loop over the reversed iterator, or collected from it;
+    # no adaptor that drops rows in between
+    fam = f.family(g.path)
+    pushes = [t for x in fam for _, t in x.calls() if t["f"].get("name") == "push"]
+    collects = [t for _, t in g.calls() if t["f"].get("name") in ("collect", "try_collect") and revs and _receiver_chain_has(g, t["a"][0], revs[0])]
+    dropping = [t["f"].get("name") for x in fam for _, t in x.calls() if t["f"].get("name") in ("take", "skip", "filter", "filter_map", "step_by", "take_while", "skip_while", "nth", "last", "truncate", "pop", "dedup", "retain")]
+    ctx.check((len(pushes) == 1) != (len(collects) == 1) and not dropping, "C17.R4", g.path, "pushes-every-row",
+              "each row's peer reaches the result once (push sites %d, collect-from-rev sites %d, row-dropping adaptors %s)" % (len(pushes), len(collects), dropping), g.sp)
     ctx.floor("C17.R4", 3)
 
 
@@ -169,13 +228,13 @@ def r5(ctx):
         if (tables.call_table(t, types) or (None, None))[:2] != (NP, "insert"):
             continue
         n += 1
-        key = {origin_summary(o) for o in trace(b, t["a"][1])}
+        key = outer_names(f, outer, b, t["a"][1])
         comps = []
         for o in trace(b, t["a"][2]):
             if o.kind == "agg" and o.data[0][0] == "tuple":
                 for op in o.data[1]:
-                    comps.append({origin_summary(x) for x in trace(b, op)})
-        ok = key == {"upvar:namespace"} and len(comps) == 2 and comps[0] == {"upvar:nanos"} and comps[1] == {"upvar:peer"}
+                    comps.append(outer_names(f, outer, b, op))
+        ok = key == {"arg:namespace"} and len(comps) == 2 and comps[0] == {"clock"} and comps[1] == {"arg:peer"}
         ctx.check(ok, "C17.R5", RUP, "insert.row-is-(fresh-nanos,this-peer)#%d" % n,
                   "key %s, row %s; a row inserted with a stale timestamp does not move the peer to the front" % (sorted(key), [sorted(c) for c in comps]), t["sp"])
     # nanos is computed from the clock in the outer function, namespace/peer are the arguments
